@@ -18,7 +18,8 @@ Everything of `soxr.c` the wrapper's observable behaviour depends on is modelled
 * `soxr_set_io_ratio` — lazy initialisation on the first valid ratio; constant-rate engines refuse a different ratio
   (`fabs(p->io_ratio - io_ratio) < 1e-15`), and the refusal is lost in `soxr_set_error`;
 * `fatal_error` — `memset`s the whole object (control block, channel count, quality spec included) and then records;
-* `soxr_clear` — keeps the configuration, drops the error, re-initialises at the **old** ratio under `RESET_ON_CLEAR`;
+* `soxr_clear` — keeps the configuration, drops the error, under `RESET_ON_CLEAR` keeps the **old** ratio and
+  re-initialises at it (when channels and ratio are set);
 * `soxr_process` — `~input_frames` decoded on `size_t`, `soxr_i_for_o = min(ceil(olen · io_ratio), ilen)` in `double`;
 * `soxr_output` — the pull loop; `soxr_input`; the NULL-pointer errors;
 * dereferences of `p->resamplers` / of the function pointers when they are NULL are **crashes** (`R.crash`).
@@ -85,6 +86,9 @@ def ceilToSize (v : Val) : Nat :=
 
 /-- `soxr_i_for_o`: `min((size_t)ceil((double)olen * p->io_ratio), ilen)`. -/
 def iForO (olen : Nat) (io : D) (ilen : Nat) : Nat := min (ceilToSize (mulSize olen io)) ilen
+
+/-- `x == 0` (either zero). -/
+def isZero (b : D) : Bool := match dval b with | .fin x => decide (x = 0) | _ => false
 
 /-- `io_ratio > 0`. -/
 def dpos (b : D) : Bool := (dval b).isPos
@@ -320,11 +324,15 @@ def soxrProcess (fuel : Nat) (o : Obj) (inNull : Bool) (ilen0 : BitVec 64) (outN
     M (Obj × Nat × Nat) :=
   processCore fuel { o with flushing := flushAfter o inNull ilen0 olen } inNull outNull (ilenOf o inNull ilen0 olen) olen
 
-/-- `soxr_clear(p)`, `p` not NULL: `(object, returned error)`. -/
+/-- `soxr_clear(p)`, `p` not NULL: `(object, returned error)`.  Under `RESET_ON_CLEAR` the old ratio is stored again
+    (`p->io_ratio = tmp.io_ratio`) and, when the channel count is set and the ratio is not 0, applied through
+    `soxr_set_io_ratio` — which re-creates the engines at the OLD ratio. -/
 def soxrClear (o : Obj) : M (Obj × Option Err) :=
   M.bind (closeAll o) fun _ =>
-  if o.cfg.reset then setIoRatio { o with ioRatio := 0, error := none, inited := false, flushing := false } o.ioRatio 0
-  else M.pure ({ o with ioRatio := 0, error := none, inited := false, flushing := false }, none)
+  if !o.cfg.reset then M.pure ({ o with ioRatio := 0, error := none, inited := false, flushing := false }, none)
+  else if o.chans != 0 && !isZero o.ioRatio then
+    setIoRatio { o with error := none, inited := false, flushing := false } o.ioRatio 0
+  else M.pure ({ o with error := none, inited := false, flushing := false }, none)
 
 /-! ## `soxr-lsr.c` -/
 
@@ -411,8 +419,6 @@ deriving DecidableEq, Repr, Inhabited
 
 /-- `-1.0`. -/
 def minusOne : D := 0xBFF0000000000000
-
-def isZero (b : D) : Bool := match dval b with | .fin x => decide (x = 0) | _ => false
 
 def srcSimple (fuel : Nat) (io : Option Data) (id : Nat) (chans : Int) : M SRes :=
   match io with
